@@ -251,6 +251,53 @@ def check_dsis_sets(part, w, ka, kb, okind):
             part.fail(f"dsis.{name}", case, {"result": repr(Rr)[:120], "missing": sorted(expect - got)[:6]})
         if g_any(mk_dsis(w, ka)) != gA or g_any(A) != gA:
             part.fail(f"dsis.{name}:operand-mutated", case, None)
+    # the same set operations on operands that were queried beforehand, result queried afterwards (collapse, extremes):
+    # whatever the objects memoise must not be stale.  Differential against the fresh-operand run, so that what the
+    # operation already loses on fresh operands (listed above) is not reported a second time.
+    def _prequery(X):
+        for q in (lambda v: v.collapse(), lambda v: v.stride, lambda v: v.max, lambda v: v.min, lambda v: v.cardinality, lambda v: v.eval(2), lambda v: (v == v).value):
+            try:
+                q(X)
+            except Exception:  # noqa: BLE001
+                pass
+
+    def _observe(Rr):
+        obs = {"members": g_any(Rr)}
+        if hasattr(Rr, "collapse"):
+            obs["collapse"] = g_any(Rr.collapse())
+        return obs
+
+    for name in ("union", "intersection"):
+        part.count("transitions")
+        case = f"{name}-after-queries|{dkey(ka)}|{kbs}"
+        try:
+            fresh = _observe(getattr(mk_dsis(w, ka), name)(mk_dsis(w, kb) if okind == "dsis" else S.from_key(kb)))
+        except Exception:  # noqa: BLE001
+            continue
+        A = mk_dsis(w, ka)
+        B = mk_dsis(w, kb) if okind == "dsis" else S.from_key(kb)
+        _prequery(A)
+        _prequery(B)
+        try:
+            R1 = getattr(A, name)(B)
+            _prequery(R1)
+            queried = _observe(R1)
+            # and once more on top of the queried result
+            R2 = getattr(R1, name)(B) if hasattr(R1, name) else None
+            queried2 = _observe(R2) if R2 is not None else None
+            fresh2 = _observe(getattr(getattr(mk_dsis(w, ka), name)(mk_dsis(w, kb) if okind == "dsis" else S.from_key(kb)), name)(mk_dsis(w, kb) if okind == "dsis" else S.from_key(kb))) if R2 is not None else None
+        except Exception as e:  # noqa: BLE001
+            part.fail(f"dsis.{name}-after-queries:raise:{type(e).__name__}", case, str(e)[:200])
+            continue
+        for tag, fr, qu in (("", fresh, queried), ("-twice", fresh2, queried2)):
+            if fr is None or qu is None:
+                continue
+            for k in fr:
+                truth = (gA | gB) if name == "union" else (gA & gB)  # only values the property obliges the result to keep
+                lost = ((fr[k] - qu[k]) & truth) if k in qu else set()
+                if lost:
+                    part.fail(f"dsis.{name}-after-queries{tag}:{k}", case, {"lost_versus_fresh_operands": sorted(lost)[:6]})
+                    break
     # SI.union(DSIS) and SI.union(SI) under _allow_dsis
     # comparisons: every occurring truth value must be admitted
     for nm, conc in (("eq", lambda a, b: a == b), ("ne", lambda a, b: a != b), ("UGT", lambda a, b: a > b), ("ULE", lambda a, b: a <= b), ("ULT", lambda a, b: a < b), ("UGE", lambda a, b: a >= b)):
